@@ -60,3 +60,64 @@ package cipher
 //@   ensures c.ctx.UserName == "" ==> forall(i, 0, len(nonce), nonce[i] == old(nonce[i]))
 //@   ensures c.ctx.UserName != "" ==> len(nonce) >= 20 && forall(i, 0, len(nonce) - 4, nonce[i] == old(nonce[i]))
 //@   ensures c.ctx.UserName != "" ==> forall(k, 0, 4, nonce[len(nonce) - 4 + k] == ghost(lasthash)[mathint(k)])
+
+//@ // Salts (docs/protocol.md, key derivation): the three salts are SHA-256 of the 8-byte
+//@ // big-endian unix-second count of the previous, the current and the next 120-second slot of
+//@ // the given instant - what is hashed is exactly that, for every instant (C08).
+//@ func saltFromTime(t time.Time) (salts [][]byte)
+//@   property C08
+//@   mode int
+//@   noframe
+//@   requires 0 <= unixnano(t) && unixnano(t) < 4611686018427387904
+//@   assert_call Sum256: len(arg0) == 8 && -1 <= rangeindex && rangeindex < 3 && arg0[0] == uint8(uint64(slotOf(old(unixnano(t))) + 120 * (mathint(rangeindex) - 1)) >> 56) && arg0[1] == uint8(uint64(slotOf(old(unixnano(t))) + 120 * (mathint(rangeindex) - 1)) >> 48) && arg0[2] == uint8(uint64(slotOf(old(unixnano(t))) + 120 * (mathint(rangeindex) - 1)) >> 40) && arg0[3] == uint8(uint64(slotOf(old(unixnano(t))) + 120 * (mathint(rangeindex) - 1)) >> 32) && arg0[4] == uint8(uint64(slotOf(old(unixnano(t))) + 120 * (mathint(rangeindex) - 1)) >> 24) && arg0[5] == uint8(uint64(slotOf(old(unixnano(t))) + 120 * (mathint(rangeindex) - 1)) >> 16) && arg0[6] == uint8(uint64(slotOf(old(unixnano(t))) + 120 * (mathint(rangeindex) - 1)) >> 8) && arg0[7] == uint8(uint64(slotOf(old(unixnano(t))) + 120 * (mathint(rangeindex) - 1)) >> 0)
+//@   ensures len(salts) == 3
+//@   loop 1:
+//@     invariant -1 <= rangeindex && rangeindex < 3 && len(times) == 3 && len(b) == 8 && len(salts) == rangeindex + 1
+//@     invariant forall(k, 0, 3, unixnano(times[k]) == (slotOf(old(unixnano(t))) + 120 * (mathint(k) - 1)) * 1000000000)
+
+//@ // Key schedule (docs/protocol.md): three keys, the k-th derived with PBKDF2 (64 iterations,
+//@ // 32-byte key) from the password and the k-th salt of the given instant (C08, C09).
+//@ func newBlockCipherList(password []byte, now time.Time) (r []*aeadBlockCipher, err error)
+//@   property C08 C09
+//@   mode int
+//@   partial
+//@   posts_only
+//@   noframe
+//@   requires 0 <= unixnano(now) && unixnano(now) < 4611686018427387904
+//@   check_pre saltFromTime
+//@   assert_call saltFromTime: arg0 == now
+//@   assert_call pbkdf2Gen.NewKey: recv.Iter == 64 && arg1 == 32 && 0 <= i && i < 3 && baseof(arg0) == baseof(password) && len(arg0) == len(password) && baseof(recv.Salt) == baseof(salts[i]) && len(recv.Salt) == len(salts[i])
+//@   loop 1:
+//@     invariant 0 <= i && i <= 3 && len(salts) == 3 && len(blockCiphers) == i
+//@
+//@ func (g *pbkdf2Gen) NewKey(password []byte, keyLen int) (key []byte, err error)
+//@   trusted PBKDF2-HMAC-SHA256 from golang.org/x/crypto (external); the key is left unconstrained
+//@   ensures err == nil ==> len(key) == keyLen
+//@
+//@ func newXChaCha20Poly1305BlockCipher(key []byte) (c *aeadBlockCipher, err error)
+//@   trusted constructs the AEAD from golang.org/x/crypto/chacha20poly1305 (external)
+//@   ensures err == nil ==> c != nil
+
+//@ // The cipher cache never serves ciphers of another key epoch (C08): whatever the cache
+//@ // holds, the entry handed out was built for the 120-second slot of the given instant, and
+//@ // the stateless decryptor tries exactly such an entry.
+//@ func getCachedCiphers(password string, now time.Time) (r *cachedCiphers, err error)
+//@   property C08
+//@   mode int
+//@   partial
+//@   posts_only
+//@   noframe
+//@   may_panic
+//@   requires 0 <= unixnano(now) && unixnano(now) < 4611686018427387904
+//@   ensures err == nil ==> r != nil && mathint(r.epoch) == slotOf(old(unixnano(now)))
+//@
+//@ func (d *StatelessDecryptor) tryDecryptAt(ciphertext []byte, dst []byte, now time.Time) (b BlockCipher, p []byte, err error)
+//@   property C08
+//@   mode int
+//@   partial
+//@   posts_only
+//@   noframe
+//@   may_panic
+//@   requires 0 <= unixnano(now) && unixnano(now) < 4611686018427387904
+//@   check_pre getCachedCiphers
+//@   assert_call selectDecryptStateless: entry != nil && mathint(entry.epoch) == slotOf(old(unixnano(now)))
